@@ -8,6 +8,7 @@ Decoding of the operation lines shared by the C16 and C20 harnesses into the scr
     filter <hex pattern> <strict 0|1> <invert 0|1>
     realio                                     (real-I/O sub-mode of the harness; the writers' output is the same)
     separate                                   (C20 with realio: `-p`, every test in its own process)
+    repeat <n>                                 (`-r<n>`: the same output object receives n runs of the registry)
     verbose <0|1|2>                            (quiet, -v, -vv: `TestOutput::verbose(level)` before the run)
     test <hex group> <hex name> <hex file> <line> <run|ign>
     print <hex file> <line> <hex text>         (actions belong to the latest test)
@@ -27,6 +28,7 @@ structure Reg where
   package : Text.Bytes := []
   filter  : Option Filter := none
   verbosity : Nat := 0
+  repeats   : Nat := 1
   realio    : Bool := false
   separate  : Bool := false
   tests   : List Script := []        -- newest first
@@ -43,6 +45,7 @@ def addAct (r : Reg) (a : Act) : Reg :=
 def applyOp (r : Reg) (w : List String) : Option Reg :=
   match w with
   | ["package", p] => (Proto.unhex? p).map fun p => { r with package := p }
+  | ["repeat", n] => n.toNat?.bind fun n => if 1 ≤ n ∧ n ≤ 9 then some { r with repeats := n } else none
   | ["realio"] => some { r with realio := true }
   | ["separate"] => some { r with separate := true }
   | ["verbose", n] => n.toNat?.bind fun n => if n ≤ 2 then some { r with verbosity := n } else none
